@@ -93,10 +93,13 @@ func pow(b, e int) int {
 	return r
 }
 
-func tuplesFamily(maxArity int, budget time.Duration) mc.Family {
+// operandsSmall is the pool used one arity above the full enumeration.
+var operandsSmall = []string{"0", "1", "-1", "9223372036854775807", "-9223372036854775808", "65537", "(abc)", "BS", "[1 2]", "SA", "{}", "/MA load", "/a", "SD", "mark"}
+
+func tuplesFamily(name string, operands []string, minArity, maxArity int, budget time.Duration) mc.Family {
 	type block struct{ arity, op, variant int }
 	var blocks []block
-	for k := 0; k <= maxArity; k++ {
+	for k := minArity; k <= maxArity; k++ {
 		for oi := range allOps {
 			nv := 1
 			if oi >= len(sysOps) {
@@ -123,8 +126,8 @@ func tuplesFamily(maxArity int, budget time.Duration) mc.Family {
 		return pre + strings.Join(parts, " ") + " " + allOps[b.op]
 	}
 	return mc.Family{
-		Name: "ps-operator-x-operand-tuples", Items: len(blocks), Budget: budget,
-		Rule: fmt.Sprintf("every operator of systemdict (%d) and of the CIDInit procedure set (%d, with and without an open begincmap) applied to every tuple of 0..%d operands from %d adversarial operand expressions (extreme integers, huge real, empty/65536-byte strings, arrays/procedures/dictionaries containing themselves, two 12-slot procedures nested in each other in every slot, mark, file, systemdict), MaxOps=%d; non-trivial = every case (each is a distinct program)", len(sysOps), len(cidOps), maxArity, len(operands), maxOps),
+		Name: name, Items: len(blocks), Budget: budget,
+		Rule: fmt.Sprintf("every operator of systemdict (%d) and of the CIDInit procedure set (%d, with and without an open begincmap) applied to every tuple of "+fmt.Sprint(minArity)+"..%d operands from %d adversarial operand expressions (extreme integers, huge real, empty/65536-byte strings, arrays/procedures/dictionaries containing themselves, two 12-slot procedures nested in each other in every slot, mark, file, systemdict), MaxOps=%d; non-trivial = every case (each is a distinct program)", len(sysOps), len(cidOps), maxArity, len(operands), maxOps),
 		Body: func(c *mc.Ctx, item int) mc.Verdict {
 			b := blocks[item]
 			idx := c.Choose(pow(len(operands), b.arity))
@@ -722,7 +725,8 @@ func main() {
 				all256[i] = byte(i)
 			}
 			fams := []mc.Family{
-				tuplesFamily(arity, budget),
+				tuplesFamily("ps-operator-x-operand-tuples", operands, 0, arity, budget),
+				tuplesFamily("ps-operator-x-operand-tuples-reduced-pool", operandsSmall, arity+1, arity+1, budget),
 				seqFamily(2, seqPreambles, budget),
 			}
 			if tier == "thorough" {
